@@ -223,6 +223,7 @@ def run(rep, facts, tier):
     from rules import builtsent
     builtsent.run_rule(rep, fx, 'R04.14')
     builtsent.run_wire(rep, fx, 'R04.15')
+    rule_04_16(rep, fx)
     # (b) a recorded GAP is always sent: on `!no_longer_relevant.is_empty()` or `all_irrelevant_before.is_some()` the message goes out
     alle = list(switch_edges(rw, fx, og))
     must_send = [(s_, t_) for s_, t_, cond, lab in alle if (cond[0] == 'call' and cond[1].endswith('::is_empty') and lab is False and term_has(cond, lambda x: x[0] == 'call' and x[1].endswith('BTreeSet::new')))
@@ -792,3 +793,62 @@ def rule_04_12(rep, fx):
             term_has(hbv[2][1], lambda y: y[0] == 'call' and y[1].endswith('::get') and term_has(y, lambda z: z == ('param', 2))) and _strip4(fs) == ('param', 2)
     rep.check(okh, 'R04.12', 'HistoryBuffer::remove_changes_before/cuts-both-maps', 'history_buffer := split_off(instant of n), sequence_number_to_instant := split_off(n), first_seq := n',
               'HistoryBuffer::remove_changes_before does not cut both maps at the given sequence number and move first_seq there', hb.where())
+
+
+def rule_04_16(rep, fx, rid='R04.16'):
+    """A GAP built from a set of sequence numbers declares irrelevant exactly members of that set (added after seed C02g: `GAP [first, last + 1)` with an empty list declares
+    every number in a hole of the set irrelevant; the reader moves its frontier over samples the writer still holds for it and never asks again)."""
+    rep.rule(rid, 'a GAP says no more than the set it is built from: in MessageBuilder::gap_msg gap_start is the first member, gapList.base starts at first + 1 and is advanced '
+                  'only over numbers the set contains (every step behind the true edge of contains(set, base)), never derived from the last member or the size, and the gapList is '
+                  'SequenceNumberSet::from_base_and_set(base, <the members of the set from base on>)')
+    b = fx.find('rtps::message::MessageBuilder::gap_msg')
+    rep.analysed(b)
+    og = Origins(b, summaries=True)
+    P = Pos(b)
+    edges = list(switch_edges(b, fx, og))
+
+    def from_set(t):
+        return term_has(t, lambda x: x == ('param', 2))
+
+    def first_of_set(t):
+        return term_has(t, lambda x: x[0] == 'call' and x[1].rsplit('::', 1)[-1] in ('first', 'min', 'next') and from_set(x))
+
+    def far_end(t):
+        return term_has(t, lambda x: x[0] == 'call' and x[1].rsplit('::', 1)[-1] in ('last', 'max', 'next_back', 'len', 'count', 'last_key_value', 'pop_last') and from_set(x))
+    gaps = [(bb, si, st) for bb, si, st in b.statements() if st['s'] == 'assign' and st['rv'].get('r') == 'agg' and (st['rv'].get('adt') or '').endswith('submessages::gap::Gap')]
+    if not gaps:
+        gaps = [(bb, si, st) for bb, si, st in b.statements() if st['s'] == 'assign' and st['rv'].get('r') == 'agg' and 'gap_list' in (st['rv'].get('fields') or [])]
+    if len(gaps) != 1:
+        raise CheckBroken('%s: Gap literal in MessageBuilder::gap_msg not found (%d)' % (rid, len(gaps)))
+    bb, si, st = gaps[0]
+    f = st['rv']['fields']
+    start = og.of_operand(st['rv']['ops'][f.index('gap_start')], bb, si)
+    glist = og.of_operand(st['rv']['ops'][f.index('gap_list')], bb, si)
+    ok = first_of_set(start) and not far_end(start) and not term_has(start, lambda x: x[0] == 'call' and x[1].endswith('plus_1'))
+    rep.check(ok, rid, 'gap_msg/start-is-first-member', 'gap_start = first member of the set', 'MessageBuilder::gap_msg: gap_start is not the first member of the set of irrelevant numbers: %s'
+              % term_str(start)[:160], b.where())
+    mk = [x for x in [glist] if x[0] == 'call' and x[1].endswith('from_base_and_set')]
+    ok = bool(mk)
+    base = None
+    if ok:
+        base, members = mk[0][2][0], mk[0][2][1]
+        ok = from_set(members) and not term_has(members, lambda x: x[0] == 'call' and x[1].endswith(('new_empty', '::new', 'default')) and not from_set(x))
+    rep.check(ok, rid, 'gap_msg/list-from-the-set', 'gapList = from_base_and_set(base, members of the set)',
+              'MessageBuilder::gap_msg: the gapList is not built by from_base_and_set from the members of the set it was given (%s): numbers of the set behind the first contiguous run are '
+              'not announced, or the range before the base has to cover them' % term_str(glist)[:160], b.where())
+    if base is not None:
+        okb = first_of_set(base) and not far_end(base) and term_has(base, lambda x: x[0] == 'call' and x[1].endswith('plus_1'))
+        # every step of the base beyond first + 1 is taken behind contains(set, base) == true
+        cont_true = [(s_, t_) for s_, t_, c, lab in edges if lab is True and c[0] == 'call' and c[1].rsplit('::', 1)[-1] == 'contains' and from_set(c[2][0])] + \
+                    [(s_, t_) for s_, t_, c, lab in edges if lab is False and c[0] == 'un' and term_has(c, lambda x: x[0] == 'call' and x[1].rsplit('::', 1)[-1] == 'contains' and from_set(x))]
+        for cb, t in b.calls():
+            if callee_res(t).endswith(('plus_1', 'Add::add', '::add')) or (callee_res(t).rsplit('::', 1)[-1] in ('add_assign',)):
+                a0 = og.of_operand(t['args'][0], cb, 'term')
+                direct = a0[0] in ('field', 'variant') and first_of_set(a0) and not term_has(a0, lambda x: x[0] in ('phi', 'mut'))
+                if direct:
+                    continue     # first + 1
+                if not (cont_true and P.every_path_passes(None, (cb, 'term'), via_edges=cont_true, from_entry=True)):
+                    okb = False
+        rep.check(okb, rid, 'gap_msg/base-advances-only-over-members', 'base = first + 1, advanced only while the set contains it',
+                  'MessageBuilder::gap_msg: gapList.base (%s) is not first + 1 advanced only over numbers the set contains: the range [gap_start, base) declares numbers irrelevant that are '
+                  'not in the set, a reader that lost one of them stops asking for it' % term_str(base)[:160], b.where())
